@@ -77,7 +77,7 @@ def classification_cases(seed, tier):
         cs = K.harness_seed(seed, ID + "-classify", i)
         rng = random.Random(cs)
         nv = rng.choice([1, 2, 2, 3])
-        vs = ["x", "y", "z"][:nv]
+        vs = rng.choice([["x", "y", "z"], ["u", "v", "w"], ["v", "u", "x"]])[:nv]
         body = []
         for v in vs:
             terms = []
@@ -109,7 +109,22 @@ def classification_cases(seed, tier):
         rng.shuffle(body)
         init = [("assign", v, ("poly", num(rng.choice([2, 3, Fraction(1, 2), 5])))) for v in vs]
         feats = ["classification"]
-        if rng.random() < 0.25:
+        if rng.random() < 0.3:
+            # a finite (Bernoulli, redrawn every iteration) factor in front of a non-linear power of an unbounded variable: the
+            # power of the UNBOUNDED variable decides linearity, whatever the order in which the variables are enumerated
+            bn = rng.choice([n_ for n_ in ["d", "z", "b"] if n_ not in vs])
+            tgt = rng.randrange(len(body))
+            w = rng.choice(vs)
+            v_, rhs_ = body[tgt][1], body[tgt][2]
+            extra_t = binop("*", var(bn), binop("**", var(w), num(rng.choice([2, 2, 3]))))
+            if rhs_[0] == "poly":
+                body[tgt] = ("assign", v_, ("poly", binop("+", rhs_[1], extra_t)))
+            else:
+                body[tgt] = ("assign", v_, ("choice", [(binop("+", rhs_[1][0][0], extra_t), rhs_[1][0][1])] + list(rhs_[1][1:])))
+            body.insert(rng.randrange(len(body) + 1), ("assign", bn, ("draw", "Bernoulli", [num(Fraction(1, 2))])))
+            init.append(("assign", bn, ("poly", num(0))))
+            feats.append("classification:finite-factor-times-nonlinear-power")
+        elif rng.random() < 0.25:
             # a loop constant with a continuous random initial value (drawn once before the loop, never assigned in the body) as a
             # factor: x = k*x is NOT linear - E(x_n) = x0*E(k**n) - although k never changes
             fam = rng.choice([("Normal", [num(0), num(1)]), ("Uniform", [num(0), num(2)]), ("Laplace", [num(1), num(1)])])
@@ -125,6 +140,24 @@ def classification_cases(seed, tier):
             feats.append("classification:continuous-random-loop-constant-factor")
         prog = Program([], init, ("true",), body)
         out.append({"id": f"classify-{cs}", "kind": "classify", "text": program_str(prog), "ast": prog.to_json(), "features": feats})
+    # the ONLY non-linear dependency is a finite factor times a power of an unbounded variable, for several name pairs (the order in
+    # which the variables of a monomial are enumerated must not matter)
+    pairs = [("z", "u"), ("d", "v"), ("b", "x"), ("d", "u"), ("z", "v"), ("a1", "y"), ("c", "w")]
+    for i in range(len(pairs) if tier == "quick" else 4 * len(pairs)):
+        cs = K.harness_seed(seed, ID + "-classify-finfactor", i)
+        rng = random.Random(cs)
+        bn, un = pairs[i % len(pairs)]
+        pw = rng.choice([2, 2, 3])
+        upd = rng.choice([binop("+", var(un), binop("*", num(Fraction(1, 2)), binop("*", var(bn), binop("**", var(un), num(pw))))),
+                          binop("+", binop("*", var(bn), binop("**", var(un), num(pw))), num(1)),
+                          binop("+", binop("*", num(Fraction(1, 2)), var(un)), binop("*", binop("**", var(un), num(pw)), var(bn)))])
+        body = [("assign", bn, ("draw", "Bernoulli", [num(Fraction(1, 2))])), ("assign", un, ("poly", upd))]
+        if rng.random() < 0.5:
+            body.append(("assign", "s", ("poly", binop("+", var("s"), var(bn)))))
+        init = [("assign", bn, ("poly", num(0))), ("assign", un, ("poly", num(rng.choice([Fraction(1, 2), 2, 3])))), ("assign", "s", ("poly", num(0)))]
+        prog = Program([], init, ("true",), body)
+        out.append({"id": f"classify-ff-{cs}", "kind": "classify", "text": program_str(prog), "ast": prog.to_json(),
+                    "features": ["classification", "classification:only-nonlinearity-has-finite-factor"]})
     return out
 
 
@@ -139,11 +172,13 @@ def true_defective(prog):
     # and count as numbers (x = y*x is linear then) - least fixed point
     inits = {st[1]: eval_expr(st[2][1], {}) for st in prog.init if st[0] == "assign" and st[2][0] == "poly"}
     consts = {}
+    # finitely valued variables of these cases: (re)drawn from Bernoulli in the body; a finite factor does not make a term non-linear
+    finite = {st[1] for st in prog.body if st[2][0] == "draw" and st[2][1] == "Bernoulli"}
     changed = True
     while changed:
         changed = False
         for v in vs:
-            if v in consts or v not in inits:
+            if v in consts or v not in inits or v in finite:
                 continue
             alts = []
             for st in prog.body:
@@ -155,7 +190,7 @@ def true_defective(prog):
                 changed = True
     for st in prog.body:
         v, rhs = st[1], st[2]
-        if v in consts:
+        if v in consts or rhs[0] == "draw":
             continue
         polys = [rhs[1]] if rhs[0] == "poly" else [e for e, _ in rhs[1]]
         for e in polys:
@@ -163,7 +198,7 @@ def true_defective(prog):
             if not isinstance(val, AP):
                 continue
             for mono in val.t:
-                deg = sum(p for _, p in mono)
+                deg = sum(p for (aid_, _k), p in mono if aid_[1] not in finite)
                 for (aid, _kind), p in mono:
                     w = aid[1]
                     lin[v].add(w)
